@@ -13,9 +13,10 @@ static const int N = 314;
 static void paths_of(AdaptiveHuffmanTree& t, std::vector<std::vector<int>>& out) { out.assign(N, {}); std::vector<int> cur; std::function<void(unsigned)> go = [&](unsigned n) { if (cur.size() > 700) throw std::logic_error("cycle"); if (t.IsLeaf(n)) { unsigned d = t.GetNodeData(n); if (d < (unsigned)N) out[d] = cur; return; } cur.push_back(0); go(t.GetChildNode(n, false)); cur.back() = 1; go(t.GetChildNode(n, true)); cur.pop_back(); }; go(t.GetRootNodeIndex()); }
 // the encoder's view: the bit string GetEncodedBitString reports for a symbol, in the order the decoder consumes it (LSB = branch at the root)
 static json enc_of(AdaptiveHuffmanTree& t, unsigned x) { try { unsigned bc = 0; unsigned bs = t.GetEncodedBitString((unsigned short)x, bc); if (bc > 64) return "unreadable"; json a = json::array(); for (unsigned i = 0; i < bc; ++i) a.push_back(i < 32 ? (bs >> i) & 1 : 0); return a; } catch (const std::exception&) { return "unreadable"; } }
-// "fib": symbol 7*i is updated fib(i) times in a row (i = 1, 2, ...): each heavy symbol is about as frequent as everything lighter together,
-// the profile that makes codes as long as the counters allow (more than 16 bits well inside the capacity)
-static unsigned fib_symbol(long k) { long a = 1, b = 1, start = 0; for (int i = 1; i < 40; ++i) { if (k < start + a) return (unsigned)((7 * i) % N); start += a; long c = a + b; a = b; b = c; } return 0; }
+// "fib": the 314 symbols start with weight 1 each (a balanced blob B of weight 314, codes of 8-9 bits).  Symbol 7*i is then updated t_i times
+// in a row with t_1 = t_2 = 314 and t_(i+2) = 314 + t_1 + ... + t_i: each heavy symbol is as frequent as everything lighter together, the
+// profile that makes codes as long as the counters allow (ten such symbols fit below the capacity: codes of more than 16 bits)
+static unsigned fib_symbol(long k) { long t[40]; long sum = 0, start = 0; for (int i = 1; i < 40; ++i) { t[i] = i <= 2 ? N : N + sum - t[i - 1]; sum += t[i]; if (k < start + t[i]) return (unsigned)((7 * i) % N); start += t[i]; } return 0; }
 int main(int argc, char** argv) { std::string pattern = "random"; long steps = 1000, every = 512; unsigned long long seed = 1;
 	for (int i = 1; i + 1 < argc; ++i) { std::string a = argv[i], v = argv[i + 1]; if (a == "--pattern") pattern = v; else if (a == "--steps") steps = atol(v.c_str()); else if (a == "--table-every") every = atol(v.c_str()); else if (a == "--seed") seed = strtoull(v.c_str(), 0, 10); }
 	std::mt19937_64 rng(seed); AdaptiveHuffmanTree t(N); std::vector<std::vector<int>> P; std::cout << json{{"e", "Init"}}.dump() << "\n";
